@@ -199,13 +199,13 @@ def gen_case(rng, force=None):
         kr = "shifted-left"
     else:
         right, kr = texture(rng, nr, nc, amp)
-    valid, nodata = rng.choice([(0, 1), (0, 1), (5, 7)])
-    codes = [nodata, nodata + 1, nodata + 2]
-    m_l, kml = gen_mask(rng, nr, nc, codes)
-    m_r, kmr = gen_mask(rng, nr, nc, codes)
-    if valid != 0:
-        m_l = [[valid if v == 0 else v for v in row] for row in m_l] if m_l else None
-        m_r = [[valid if v == 0 else v for v in row] for row in m_r] if m_r else None
+    # the mask convention is the dataset's (attrs valid_pixels / no_data_mask): the valid code need not be the lowest
+    valid, nodata, codes = rng.choice([(0, 1, [1, 2, 3]), (0, 1, [1, 2, 3]), (5, 7, [7, 8, 9]), (1, 0, [0, 2, 3]),
+                                       (4, 2, [2, 0, 7])])
+    m_l, kml = gen_mask(rng, nr, nc, [101, 102, 103])
+    m_r, kmr = gen_mask(rng, nr, nc, [101, 102, 103])
+    recode = lambda m: [[valid if v == 0 else codes[v - 101] for v in row] for row in m] if m else None
+    m_l, m_r = recode(m_l), recode(m_r)
     win = rng.choice([1, 1, 3, 3, 5])
     method = "sad" if win == 1 else rng.choice(["sad", "census"])
     sub = rng.choice([1, 1, 2, 4])
